@@ -133,7 +133,42 @@ let exjl toks =
   Printf.sprintf "judge=%d pos=%d" (int_of_z (ex_judge_lenient t))
     (int_of_z (ex_judge_pos false ex_mon_init t Z0))
 
+(* exw <n> <mid0>: the message-id wrap experiment of harness/h_exchange.c on the model *)
+let exw toks =
+  match toks with
+  | n :: mid0 :: _ ->
+      let n = int_of_string n in
+      let maxr = z_of_int 4 in
+      let c = ref (ex_cli_init (zi mid0) Z0) in
+      let step i = let (c1, outs) = ex_cli_step maxr !c i in c := c1; outs in
+      let total = ref 0 and first = ref (-1) and last = ref (-1) and lresp = ref 0 and lnack = ref 0 in
+      (try
+        for e = 0 to n + 1 do
+          let piggy = (e = 0 || e = n + 1) in
+          let (mid, tok) =
+            match step (ExSend (z_of_int (if piggy then 0 else 1))) with
+            | [ExTx (ExReq (m, k, _))] -> (m, k)
+            | _ -> raise Exit in
+          if e = 0 then first := int_of_z mid;
+          let outs =
+            if piggy then step (ExRx (ExAckR (mid, tok), true))
+            else begin
+              let o1 = step (ExRx (ExAckE mid, true)) in
+              let o2 = step (ExRx (ExConR (z_of_int ((7000 + e) land 0xffff), tok), true)) in
+              o1 @ o2
+            end in
+          let nresp = List.length (List.filter (fun o -> match o with ExResp (_, _, k, _) -> k = tok | _ -> false) outs) in
+          let nnack = List.length (List.filter (fun o -> match o with ExNack (k, _, _) -> k = tok | _ -> false) outs) in
+          total := !total + nresp;
+          if e = n + 1 then begin last := int_of_z mid; lresp := nresp; lnack := nnack end
+        done
+      with Exit -> ());
+      Printf.sprintf "first=%d last=%d resp_last=%d nack_last=%d queued=%d total_resp=%d" !first !last
+        !lresp !lnack (match !c.ex_c_q with Some _ -> 1 | None -> 0) !total
+  | _ -> failwith "exw: arguments"
+
 let () =
+  register "exw" exw;
   register "exc" exc;
   register "exj" exj;
   register "exjl" exjl
